@@ -71,6 +71,14 @@ SEP_NAME = {",": "after-comma", " ": "after-space", "(": "after-open-paren", ")"
             "\n": "after-newline", ";": "after-semicolon", "-": "after-minus", "+": "after-plus", "\t": "after-tab",
             "/": "after-comment", '"': "after-string", "": "at-start"}
 
+def _ident_then_constant(toks):
+    """identifier immediately followed (no white space) by a pp-number: only possible for '.digit...'"""
+    for a, b in zip(toks, toks[1:]):
+        if a.kind == "ident" and b.kind == "ppnum" and b.pos == a.pos + len(a.text):
+            return True
+    return False
+
+
 SNIPPETS = [
     "void f(double,double);",
     "void f(double, double);",
@@ -108,7 +116,7 @@ DTYPE_SPELLINGS = [None, "default", "single", "double", "quad", "half", "fast", 
 EXPECT_DTYPE = {"single": "float32", "double": "float64", "quad": "longdouble", "half": "float16", "fast": "float32",
                 "float32": "float32", "f": "float32", "d": "float64", "longdouble": "longdouble",
                 "float64": "float64", "float16": "float16", None: "float64", "default": "float64"}
-PLATFORMS = [None, "ocl", "dll"]
+PLATFORMS = [None, "ocl", "dll", "cuda"]
 
 
 # ------------------------------------------------------------------------------------------------
@@ -251,6 +259,8 @@ def judge(src, toks, dtype_name, type_name, suffix, nbytes, convert):
             prev = _prev_char(src, toks, i)
             if cls == "keyword":
                 v.clause, v.context = "type-keyword", SEP_NAME.get(prev, "after-%r" % prev)
+                if t.text == "cdouble" and prev == "":
+                    v.context = "cdouble-at-start"
             elif cls == "cdouble-long":
                 v.clause, v.context = "type-keyword", "cdouble-long-double"
             elif cls == "literal":
@@ -390,12 +400,18 @@ def _run_seq(case, ctx):
                     want.append(s)
                 want.extend(ftoks[f])
             try:
-                have = [t.text for t in clex.lex(src)]
+                htoks = clex.lex(src)
+                have = [t.text for t in htoks]
             except clex.LexError:
                 r.extra["skipped-not-lexable"] += 1
                 continue
             if have != want:
                 r.extra["skipped-fragments-merge"] += 1
+                continue
+            if _ident_then_constant(htoks):
+                # identifier immediately followed by ".digit": lexically two tokens, but no C grammar rule accepts
+                # an identifier followed by a constant (member names cannot start with a digit): not well-formed
+                r.extra["skipped-identifier-then-constant"] += 1
                 continue
             blk.run(src)
     blk.close("seq%d" % L)
@@ -510,6 +526,13 @@ def _run_dtype(case, ctx):
                 fk = {"clause": "dtype-spelling", "spelling": str(spell), "bang": bang}
                 try:
                     dt, fast, plat = core.parse_dtype(info, arg, platform)
+                except RuntimeError as exc:
+                    if platform == "cuda" and "CUDA" in str(exc):
+                        # an explicitly requested, unavailable GPU platform is refused: no type is selected at all
+                        r.ok(outcome="cuda-unavailable-refused", branches=["cuda-unavailable-refused"])
+                    else:
+                        r.fail("%s raised %r" % (call, exc), fk)
+                    continue
                 except Exception as exc:  # noqa
                     r.fail("%s raised %r" % (call, exc), fk)
                     continue
